@@ -774,6 +774,13 @@ func (env *SpecEnv) evalCall(e *Expr) SVal {
 		}
 		v, ok := env.reachingDef(e.Args[0].Name)
 		if !ok {
+			// the named local no longer exists (renamed?): if the loop carries exactly one variable besides its
+			// counter, the invariant can only mean that one. Binding it is safe - the invariant is still checked at
+			// entry and at every back edge, so a wrong guess fails, it never passes silently.
+			if alt, altName, ok2 := env.onlyCarried(); ok2 {
+				env.x.assumed[fmt.Sprintf("%s: invariant names local %q, which does not exist any more; read as the loop's only carried variable %q", env.x.curKey, e.Args[0].Name, altName)] = true
+				return alt
+			}
 			env.errf(e, "now(%s): no reaching definition found", e.Args[0].Name)
 		}
 		return v
@@ -1116,6 +1123,43 @@ func (x *Exec) unfoldHFuncs(ts []*Term) []*Term {
 // reachingDef finds, through debug references, the definition of a source variable that
 // reaches the loop head of the invariant being evaluated: a phi at the head, otherwise the
 // dominating definition that is latest in dominance order.
+// onlyCarried: the single loop-carried source variable (phi at the loop head) of the loop whose invariant is being
+// evaluated, not counting the loop's own index or counter.
+func (env *SpecEnv) onlyCarried() (SVal, string, bool) {
+	if env.loop == nil || env.fr == nil {
+		return SVal{}, "", false
+	}
+	var skip = map[ssa.Value]bool{}
+	for _, l := range env.fr.info.LoopOrd {
+		if l.Head == env.loop.Head {
+			if l.RangeIx != nil {
+				skip[l.RangeIx] = true
+			}
+			if l.CountIx != nil {
+				skip[l.CountIx] = true
+			}
+		}
+	}
+	var found *ssa.Phi
+	for _, ins := range env.loop.Head.Instrs {
+		phi, ok := ins.(*ssa.Phi)
+		if !ok || skip[phi] || phi.Comment == "" {
+			continue
+		}
+		if _, ok := env.fr.regs[phi]; !ok {
+			continue
+		}
+		if found != nil {
+			return SVal{}, "", false
+		}
+		found = phi
+	}
+	if found == nil {
+		return SVal{}, "", false
+	}
+	return env.fromValue(env.fr.regs[found], found.Type()), found.Comment, true
+}
+
 func (env *SpecEnv) reachingDef(name string) (SVal, bool) {
 	fr := env.fr
 	if env.loop == nil {
